@@ -287,6 +287,23 @@ func solveFunc(key string, vs *VCSet, opts SolveOpts) float64 {
 	}
 	flush()
 	wg.Wait()
+	// a handful of undecided obligations: decide them one at a time, without competing for the CPUs
+	var undecided []*Obligation
+	for _, ob := range vs.Obs {
+		if !ob.Cover && (ob.Status == "unknown" || ob.Status == "timeout") && !(opts.ExpectFail != nil && opts.ExpectFail(ob.Name)) {
+			undecided = append(undecided, ob)
+		}
+	}
+	if len(undecided) > 0 && len(undecided) <= 6 {
+		for _, ob := range undecided {
+			body := smtHeader + vs.queryText([]*Obligation{ob}) + "(check-sat)\n"
+			r := race(body, opts.TimeoutMs*6, add)
+			if r.status == "unsat" {
+				atomic.AddInt64(&failCount, -1)
+				ob.Status, ob.Solver, ob.Secs = r.status, r.solver+"(retry)", r.secs
+			}
+		}
+	}
 	return total
 }
 
